@@ -7,7 +7,7 @@
 (* the consumption measures of the unlimited render (LiquidSem!Measure).             *)
 EXTENDS LiquidGen, LiquidAst
 
-CONSTANT Variant    \* "output" | "loops" | "cycles"
+CONSTANT Variant    \* "output" | "loops" | "cycles" | "namespace"
 
 R13 == RangeE(I(1), I(3))
 R12 == RangeE(I(1), I(2))
@@ -21,6 +21,11 @@ Part == << <<"w", <<NText("w" \o Wide)>>>>,
            <<"lp3", <<ForN("k", R13, <<Tick, If(Cmp("==", V("k"), I(2)), <<Break>>, <<>>, NoElse)>>)>>>>,
            <<"it", <<Tick, NOut(P(V("it")))>>>>,                                 \* body of include/render ... for
            <<"itl", <<ForN("k", R12, <<Tick>>)>>>>,                             \* ... for, with a loop inside
+           \* assignments at every level of a chain of isolated contexts (namespace limit)
+           <<"n1", <<Assign("b1", P(S("level-one-value"))), RenderT(S("n2"), "none", NilE, "", <<>>), NOut(P(V("b1")))>>>>,
+           <<"n2", <<Assign("b2", P(S("level-two"))), Capture("b3", <<NText("captured at level two")>>), Call("nm", <<>>, <<>>), NOut(P(V("b2")))>>>>,
+           <<"itb", <<Tick, If(Cmp("==", V("itb"), I(2)), <<Break>>, <<>>, NoElse)>>>>,   \* leaves the enclosing loop from inside the partial
+           <<"itc", <<If(Cmp("==", V("itc"), I(1)), <<Continue>>, <<>>, NoElse), Tick>>>>,
            <<"self", <<NText("s"), Include(S("self"), "none", NilE, "", <<>>)>>>>,
            <<"ra", <<NText("a"), RenderT(S("rb"), "none", NilE, "", <<>>)>>>>,
            <<"rb", <<NText("b"), RenderT(S("ra"), "none", NilE, "", <<>>)>>>>,
@@ -61,7 +66,15 @@ Nests == {Wrap(k1, b) : k1 \in Kinds, b \in Inner}
          \cup {Wrap(k1, <<Wrap(k2, b)>>) : k1 \in {"for", "tablerow", "forbreak"}, k2 \in {"for2", "tablerow", "forbreak", "cap"}, b \in Inner}
          \cup {Wrap("for", <<Wrap("for2", <<Wrap("tablerow", b)>>)>>) : b \in {<<Tick>>, <<RenderT(S("lp"), "none", NilE, "", <<>>)>>}}
          \cup {Include(S("itl"), "for", V("arr"), "", <<>>), RenderT(S("itl"), "for", V("arr"), "", <<>>)}
+         \* an interrupt raised inside `include ... for` / tablerow nested in a loop, then another loop
+         \cup {Wrap("if", <<Wrap(k1, <<Include(S(pt), "for", V("arr"), "", <<>>)>>), ForN("z", R13, <<Tick>>)>>) :
+                 k1 \in {"for", "for2"}, pt \in {"itb", "itc"}}
+         \cup {Wrap("if", <<Wrap("for", <<Wrap("tablerow", <<Tick, Break>>)>>), ForN("z", R13, <<Tick>>)>>),
+               Wrap("if", <<Wrap("for", <<TableRow("t", R12, "(1..2)", NoOpt, NoOpt, NoOpt, <<Continue, Tick>>)>>), ForN("z", R13, <<Tick>>)>>)}
 
+NsProgs == {RenderT(S("n1"), "none", NilE, "", <<>>), RenderT(S("n2"), "none", NilE, "", <<>>),
+            Call("nm", <<>>, <<>>), Assign("c", P(S("a-top-level-value"))), Capture("d", <<NText("top capture")>>),
+            ForN("i", R12, <<Assign("e", P(V("i"))), RenderT(S("n2"), "none", NilE, "", <<>>)>>)}
 Cycles == {Include(S("self"), "none", NilE, "", <<>>), RenderT(S("ra"), "none", NilE, "", <<>>), Include(S("ia"), "none", NilE, "", <<>>),
            RenderT(S("self"), "none", NilE, "", <<>>), Include(S("xa"), "none", NilE, "", <<>>), RenderT(S("xa"), "none", NilE, "", <<>>),
            ForN("i", R12, <<RenderT(S("ra"), "none", NilE, "", <<>>)>>)}
@@ -70,4 +83,5 @@ MCPoolAt(i) ==
   CASE Variant = "output" -> OutLeaves
     [] Variant = "loops"  -> (IF i = 1 THEN {Macro("lm", <<>>, <<ForN("k", R12, <<Tick>>)>>)} ELSE Nests)
     [] Variant = "cycles" -> (IF i = 1 THEN {NText("pre")} ELSE Cycles)
+    [] Variant = "namespace" -> (IF i = 1 THEN {Macro("nm", <<>>, <<Assign("m1", P(S("inside-the-macro"))), NOut(P(V("m1")))>>)} ELSE NsProgs)
 =============================================================================
